@@ -5,26 +5,47 @@ package streams
 // Contracts for govc (contract-based deductive verification; see /verif/DESIGN.md).
 // This file holds only comments and is compiled only with -tags verif.
 
+// ---- LimitReadCloser ----
+// Abstract state: N0 = absolute position in the source at which the limit lies (source position at construction + n);
+// c0 = number of Close calls the source had seen at construction. "The source has at most N bytes" is R.total <= N0.
+// Sentences of C16: S3 (source with at most N bytes is yielded unchanged), S4 (longer source: at most N bytes, then
+// ErrStreamTooLarge, never EOF, source closed), S5 (source closed exactly once).
+
 //@ type limitReadCloser
 //@   ghost N0 int
+//@   ghost c0 int
 //@   invariant self.N >= -1 || self.N0 < 0
 //@   invariant self.R != nil ==> (0 <= self.R.pos && self.R.pos <= self.R.total)
 //@   invariant (self.R != nil && self.N >= 0) ==> self.R.pos + self.N == self.N0
 //@   invariant (self.R != nil && self.N == -1 && self.N0 >= 0) ==> (self.R.pos == self.N0 + 1 && self.closed)
+//@   invariant [C16.limit.closes] self.R != nil ==> self.R.closes == self.c0 + (self.closed ? 1 : 0)
 
 //@ func (*limitReadCloser).Read
 //@   tags C16 C07
+//@   ghost se iface
+//@   ghost sn int
+//@   ghost asked bool
 //@   requires l != nil && inv(l)
 //@   modifies p[0:len(p)], l.N, l.closed, l.R.pos, l.R.closes
 //@   ensures inv(l)
+//@   ensures l.N0 == old(l.N0) && l.c0 == old(l.c0) && l.R == old(l.R)
 //@   ensures 0 <= n && n <= len(p)
 //@   ensures [C16.limit.bytes] l.R != nil ==> (forall k :: 0 <= k && k < n ==> p[k] == l.R.data[old(l.R.pos) + k])
 //@   ensures [C16.limit.atmost] (l.R != nil && old(l.N) >= 0) ==> old(l.R.pos) + n <= l.N0
 //@   ensures [C16.limit.nogap] (l.R != nil && l.N >= 0) ==> l.R.pos == old(l.R.pos) + n
-//@   ensures [C16.limit.eof] (err == io.EOF && !old(l.closed)) ==> (l.R.pos == l.R.total && l.R.total <= l.N0)
+//@   ensures [C16.limit.eof] (err == io.EOF && !old(l.closed)) ==> (l.R != nil && l.R.pos == l.R.total && l.R.total <= l.N0)
+//@   ensures [C16.limit.complete] (l.R != nil && old(l.N) >= 0 && l.R.total <= l.N0) ==> (l.N >= 0 && (err == ErrStreamTooLarge ==> (asked && se == ErrStreamTooLarge)))
+//@   ensures [C16.limit.verdict] (l.R != nil && old(l.N) >= 0 && !old(l.closed) && len(p) > 0 && l.N >= 0) ==> (asked && err == se)
+//@   ensures [C16.limit.toolarge] (l.R != nil && old(l.N) >= 0 && l.N < 0 && (se == nil || se == io.EOF)) ==> err == ErrStreamTooLarge
 //@   ensures [C16.limit.large] (l.R != nil && l.N < 0) ==> (err != nil && err != io.EOF)
-//@   ensures [C16.limit.close] (l.R != nil && old(l.N) >= 0 && l.N < 0) ==> (l.closed && l.R.closes == old(l.R.closes) + 1)
+//@   ensures [C16.limit.sticky] (l.R != nil && old(l.N) < 0) ==> (n == 0 && err == ErrStreamTooLarge && l.N == old(l.N))
+//@   ensures [C16.limit.progress] (l.R != nil && old(l.N) >= 0 && !old(l.closed) && len(p) > 0) ==> (asked && n == sn - (l.N < 0 ? 1 : 0))
+//@   ensures [C16.limit.close] (l.R != nil && old(l.N) >= 0 && l.N < 0) ==> (l.closed && l.R.closes == l.c0 + 1)
 //@   ensures [C16.limit.noclose] (l.R != nil && l.N >= 0) ==> (l.R.closes == old(l.R.closes) && l.closed == old(l.closed))
+//@   at call Read ghost se = res1
+//@   at call Read ghost sn = res0
+//@   at call Read ghost asked = true
+//@   at before call Read assert [C16.limit.ask] len(arg1) == min(len(old(p)), old(l.N) + 1) && len(arg1) > 0
 //@   replay template limitreader
 //@   replay val N = l.N
 //@   replay val closed = l.closed
@@ -39,57 +60,93 @@ package streams
 //@   tags C16 C07
 //@   requires l != nil && inv(l) && l.R != nil
 //@   modifies l.closed, l.R.closes
+//@   ensures [C16.limit.closeonce] l.closed && l.R.closes == l.c0 + 1
 //@   ensures inv(l)
-//@   ensures [C16.limit.closeonce] l.closed && l.R.closes == old(l.R.closes) + (old(l.closed) ? 0 : 1)
-//@   ensures l.N == old(l.N) && l.R.pos == old(l.R.pos)
+//@   ensures l.N == old(l.N) && l.R.pos == old(l.R.pos) && l.N0 == old(l.N0) && l.c0 == old(l.c0) && l.R == old(l.R)
 
 //@ func LimitReadCloser
 //@   tags C16
 //@   requires r != nil ==> (0 <= r.pos && r.pos <= r.total)
 //@   modifies nothing
 //@   ensures typeis(result, "*github.com/dapr/kit/streams.limitReadCloser")
+//@   ensures [C16.limit.ctor] unbox(result, "*github.com/dapr/kit/streams.limitReadCloser").N == n
+//@        && unbox(result, "*github.com/dapr/kit/streams.limitReadCloser").R == r
+//@        && !unbox(result, "*github.com/dapr/kit/streams.limitReadCloser").closed
+//@   ensures [C16.limit.ctor.inv] (r != nil && n >= 0) ==> (inv(unbox(result, "*github.com/dapr/kit/streams.limitReadCloser"))
+//@        && unbox(result, "*github.com/dapr/kit/streams.limitReadCloser").N0 == r.pos + n
+//@        && unbox(result, "*github.com/dapr/kit/streams.limitReadCloser").c0 == r.closes)
+//@   at return ghost unbox(result, "*github.com/dapr/kit/streams.limitReadCloser").N0 = r.pos + n
+//@   at return ghost unbox(result, "*github.com/dapr/kit/streams.limitReadCloser").c0 = r.closes
 
 // ---- MultiReaderCloser ----
-// Abstract state: the construction-time list of sources srcs[0..nsrc), of which srcs[cur..nsrc) are still
-// in mr.readers. ext[j] == 1 records a source that answered http.ErrBodyReadAfterClose (already read and
-// closed by its owner). Sources are pairwise distinct objects.
+// Abstract state: the construction-time list of sources srcs[0..nsrc), of which srcs[cur..nsrc) are still in
+// mr.readers; sources are pairwise distinct objects. Sentences of C16: S1 (the stream is the concatenation of the
+// sources: bytes come from the current source at its position, a source is left only when exhausted, EOF only after
+// the last one), S5 (a closable source is closed exactly once when it is left; Close closes the remaining ones).
+// The rule "a source leaves the list only when it is exhausted and, if closable, closed exactly once" is asserted
+// where the list is cut ([C16.multi.dropdrained], [C16.multi.dropclosed]).
+// woff[j] (WriteTo path) = offset in the writer's log at which the bytes of source j start.
 
 //@ type MultiReaderCloser
 //@   ghost srcs [int]iface
 //@   ghost nsrc int
 //@   ghost cur int
-//@   ghost ext [int]int
+//@   ghost woff [int]int
 //@   invariant [s.cur] 0 <= self.cur && self.cur <= self.nsrc
 //@   invariant [s.len] len(self.readers) == self.nsrc - self.cur
 //@   invariant [s.elems] forall j :: 0 <= j && j < len(self.readers) ==> self.readers[j] == self.srcs[self.cur + j]
 //@   invariant [s.nonnil] forall j :: 0 <= j && j < self.nsrc ==> self.srcs[j] != nil
 //@   invariant [s.distinct] forall i, j :: 0 <= i && i < j && j < self.nsrc ==> self.srcs[i] != self.srcs[j]
 //@   invariant [s.pos] forall j :: 0 <= j && j < self.nsrc ==> (0 <= self.srcs[j].pos && self.srcs[j].pos <= self.srcs[j].total)
-//@   invariant [C16.multi.closedonce] forall j :: 0 <= j && j < self.cur ==> (implements(self.srcs[j], "io.Closer") ==> self.srcs[j].closes + self.ext[j] == 1)
-//@   invariant [C16.multi.notyet] forall j :: self.cur <= j && j < self.nsrc ==> (self.srcs[j].closes == 0 && self.ext[j] == 0)
-//@   invariant [C16.multi.drained] forall j :: 0 <= j && j < self.cur ==> (self.srcs[j].pos == self.srcs[j].total || self.ext[j] == 1)
+//@   invariant [C16.multi.closedonce] forall j :: 0 <= j && j < self.cur ==> (implements(self.srcs[j], "io.Closer") ==> self.srcs[j].closes == 1)
+//@   invariant [C16.multi.notyet] forall j :: self.cur <= j && j < self.nsrc ==> self.srcs[j].closes == 0
+//@   invariant [C16.multi.drained] forall j :: 0 <= j && j < self.cur ==> self.srcs[j].pos == self.srcs[j].total
 
 //@ func (*MultiReaderCloser).Read
 //@   tags C16 C07
 //@   ghost last int
+//@   ghost se iface
+//@   ghost asked bool
 //@   requires mr != nil && inv(mr)
-//@   modifies p[0:len(p)], mr.readers, mr.cur, mr.ext, pos, closes
-//@   ensures inv(mr)
+//@   modifies p[0:len(p)], mr.readers, mr.cur, pos, closes
+//@   ensures [C16.multi.read.inv] inv(mr)
 //@   ensures mr.nsrc == old(mr.nsrc) && mr.srcs == old(mr.srcs) && old(mr.cur) <= mr.cur
 //@   ensures 0 <= n && n <= len(p)
 //@   ensures [C16.multi.bytes] n > 0 ==> (old(mr.cur) <= last && last < mr.nsrc && mr.srcs[last].pos == old(mr.srcs[last].pos) + n
 //@        && (forall k :: 0 <= k && k < n ==> p[k] == mr.srcs[last].data[old(mr.srcs[last].pos) + k]))
-//@   ensures [C16.multi.noskip] n > 0 ==> (forall j :: old(mr.cur) <= j && j < last ==> (mr.srcs[j].pos == mr.srcs[j].total || mr.ext[j] == 1))
+//@   ensures [C16.multi.noskip] n > 0 ==> (forall j :: old(mr.cur) <= j && j < last ==> mr.srcs[j].pos == mr.srcs[j].total)
 //@   ensures [C16.multi.nolost] forall j :: (0 <= j && j < mr.nsrc && !(n > 0 && j == last)) ==> mr.srcs[j].pos == old(mr.srcs[j].pos)
 //@   ensures [C16.multi.eof] err == io.EOF ==> mr.cur == mr.nsrc
+//@   ensures [C16.multi.eof.complete] err == io.EOF ==> (forall j :: 0 <= j && j < mr.nsrc ==> mr.srcs[j].pos == mr.srcs[j].total)
 //@   ensures [C16.multi.later] forall j :: mr.cur < j && j < mr.nsrc ==> mr.srcs[j].pos == old(mr.srcs[j].pos)
+//@   ensures [C16.multi.ownerr] (err != nil && err != io.EOF) ==> (asked && err == se)
+//@   ensures [C16.multi.progress] old(mr.cur) < mr.nsrc ==> asked
 //@   loop 0 invariant inv(mr) && mr.nsrc == old(mr.nsrc) && mr.srcs == old(mr.srcs) && old(mr.cur) <= mr.cur
 //@   loop 0 invariant forall j :: mr.cur <= j && j < mr.nsrc ==> mr.srcs[j].pos == old(mr.srcs[j].pos)
-//@   loop 0 invariant forall j :: old(mr.cur) <= j && j < mr.cur ==> (mr.srcs[j].pos == mr.srcs[j].total || mr.ext[j] == 1)
+//@   loop 0 invariant forall j :: old(mr.cur) <= j && j < mr.cur ==> mr.srcs[j].pos == mr.srcs[j].total
 //@   loop 0 invariant forall j :: 0 <= j && j < mr.nsrc ==> mr.srcs[j].pos == old(mr.srcs[j].pos)
-//@   at call Read ghost last = mr.cur
-//@   at store readers#0 ghost mr.ext = update(mr.ext, mr.cur, 1)
+//@   loop 0 invariant mr.cur > old(mr.cur) ==> asked
+// The drop rule at the cut in the http.ErrBodyReadAfterClose branch (store readers#0). These two asserts come first so
+// that their obligation names stay `at:store readers#0.0` and `at:store readers#0.1` (known finding, audit G1/D1).
+//@   at store readers#0 assert [C16.multi.dropdrained] mr.srcs[mr.cur].pos == mr.srcs[mr.cur].total
+//@   at store readers#0 assert [C16.multi.dropclosed] implements(mr.srcs[mr.cur], "io.Closer") ==> mr.srcs[mr.cur].closes == 1
+// Fence around the known finding (not a sentence of the property): the only branch that may cut the list without the
+// source having reported io.EOF is the one for errors matching http.ErrBodyReadAfterClose. Stated as a postcondition
+// (ghost badcut) so that its obligation name does not start with `at:store readers#0`, the prefix of the known finding.
+//@   ghost fence bool
+//@   ghost badcut bool
+//@   at entry ghost badcut = false
+//@   at call errors.Is#0 ghost fence = res0
+//@   at store readers#0 ghost badcut = badcut || !fence
+//@   ensures [C16.multi.known.fence] !badcut
+//@   loop 0 invariant [C16.multi.known.fence] !badcut
 //@   at store readers#0 ghost mr.cur = mr.cur + 1
+//@   at before call Read assert [C16.multi.ask] len(arg1) == len(p)
+//@   at call Read ghost last = mr.cur
+//@   at call Read ghost se = res1
+//@   at call Read ghost asked = true
+//@   at store readers#1 assert [C16.multi.dropdrained] mr.srcs[mr.cur].pos == mr.srcs[mr.cur].total
+//@   at store readers#1 assert [C16.multi.dropclosed] implements(mr.srcs[mr.cur], "io.Closer") ==> mr.srcs[mr.cur].closes == 1
 //@   at store readers#1 ghost mr.cur = mr.cur + 1
 
 //@ func NewMultiReaderCloser
@@ -98,43 +155,63 @@ package streams
 //@   requires forall i, j :: 0 <= i && i < j && j < len(readers) ==> readers[i] != readers[j]
 //@   requires forall j :: 0 <= j && j < len(readers) ==> (0 <= readers[j].pos && readers[j].pos <= readers[j].total && readers[j].closes == 0)
 //@   modifies nothing
-//@   ensures fresh(result) && inv(result) && result.cur == 0 && result.nsrc == len(readers)
-//@   ensures forall j :: 0 <= j && j < len(readers) ==> result.srcs[j] == readers[j]
+//@   ensures [C16.multi.ctor.inv] fresh(result) && inv(result) && result.cur == 0 && result.nsrc == len(readers)
+//@   ensures [C16.multi.ctor] forall j :: 0 <= j && j < len(readers) ==> result.srcs[j] == readers[j]
 //@   at return ghost result.srcs = lambda j :: readers[j]
 //@   at return ghost result.nsrc = len(readers)
 //@   at return ghost result.cur = 0
-//@   at return ghost result.ext = lambda j :: 0
 
 //@ func (*MultiReaderCloser).Close
 //@   tags C16 C07
 //@   requires mr != nil && inv(mr)
 //@   modifies mr.readers, mr.cur, closes
-//@   ensures invexcept(mr, "C16.multi.drained") && mr.cur == mr.nsrc && mr.nsrc == old(mr.nsrc) && mr.srcs == old(mr.srcs) && result == nil
-//@   ensures [C16.multi.close.all] forall j :: 0 <= j && j < mr.nsrc ==> (implements(mr.srcs[j], "io.Closer") ==> mr.srcs[j].closes + mr.ext[j] == 1)
+//@   ensures [C16.multi.close.state] invexcept(mr, "C16.multi.drained") && mr.cur == mr.nsrc && mr.nsrc == old(mr.nsrc) && mr.srcs == old(mr.srcs) && result == nil
+//@   ensures [C16.multi.close.all] forall j :: 0 <= j && j < mr.nsrc ==> (implements(mr.srcs[j], "io.Closer") ==> mr.srcs[j].closes == 1)
+//@   ensures [C16.multi.close.noncloser] forall j :: 0 <= j && j < mr.nsrc ==> (!implements(mr.srcs[j], "io.Closer") ==> mr.srcs[j].closes == old(mr.srcs[j].closes))
 //@   loop 0 invariant invexcept(mr, "C16.multi.closedonce", "C16.multi.notyet") && mr.nsrc == old(mr.nsrc) && mr.srcs == old(mr.srcs) && mr.cur == old(mr.cur) && mr.readers == old(mr.readers)
-//@   loop 0 invariant -1 <= rangeindex && rangeindex < len(mr.readers) && mr.ext == old(mr.ext)
-//@   loop 0 invariant forall j :: 0 <= j && j < mr.cur ==> (implements(mr.srcs[j], "io.Closer") ==> mr.srcs[j].closes + mr.ext[j] == 1)
-//@   loop 0 invariant forall j :: mr.cur <= j && j <= mr.cur + rangeindex ==> (implements(mr.srcs[j], "io.Closer") ==> mr.srcs[j].closes + mr.ext[j] == 1)
-//@   loop 0 invariant forall j :: mr.cur + rangeindex < j && j < mr.nsrc ==> (mr.srcs[j].closes == 0 && mr.ext[j] == 0)
+//@   loop 0 invariant -1 <= rangeindex && rangeindex < len(mr.readers)
+//@   loop 0 invariant forall j :: 0 <= j && j < mr.cur ==> mr.srcs[j].closes == old(mr.srcs[j].closes)
+//@   loop 0 invariant [C16.multi.close.once] forall j :: mr.cur <= j && j <= mr.cur + rangeindex ==> (implements(mr.srcs[j], "io.Closer") ? mr.srcs[j].closes == 1 : mr.srcs[j].closes == 0)
+//@   loop 0 invariant forall j :: mr.cur + rangeindex < j && j < mr.nsrc ==> mr.srcs[j].closes == 0
 //@   at store readers#0 ghost mr.cur = mr.nsrc
 
 //@ func (*MultiReaderCloser).writeToWithBuffer
 //@   tags C16 C07
 //@   requires mr != nil && inv(mr) && len(buf) > 0
-//@   modifies buf[0:len(buf)], mr.readers, mr.readers[0:len(mr.readers)], mr.cur, pos, closes, w.wlog, w.wpos
+//@   requires w != nil && 0 <= w.wpos
+//@   modifies buf[0:len(buf)], mr.readers, mr.readers[0:len(mr.readers)], mr.cur, mr.woff, pos, closes, w.wlog, w.wpos
 //@   ensures mr.nsrc == old(mr.nsrc) && mr.srcs == old(mr.srcs)
 //@   ensures [C16.multi.writeto.inv] inv(mr)
 //@   ensures [C16.multi.writeto.done] err == nil ==> mr.cur == mr.nsrc
 //@   ensures [C16.multi.writeto.resume] err != nil ==> old(mr.cur) <= mr.cur && mr.cur < mr.nsrc
+//@   ensures [C16.multi.writeto.sum] (w.wpos - old(w.wpos) <= 9223372036854775807) ==> sum == w.wpos - old(w.wpos)
+//@   ensures [C16.multi.writeto.prefix] forall k :: 0 <= k && k < old(w.wpos) ==> w.wlog[k] == old(w.wlog[k])
+//@   ensures [C16.multi.writeto.order] (old(mr.cur) == mr.nsrc ==> w.wpos == old(w.wpos)) && (old(mr.cur) < mr.nsrc ==> mr.woff[old(mr.cur)] == old(w.wpos))
+//@        && (forall j, m :: (old(mr.cur) <= j && j < mr.cur && m == j + 1) ==> mr.woff[m] == mr.woff[j] + mr.srcs[j].total - old(mr.srcs[j].pos))
+//@        && ((err == nil && old(mr.cur) < mr.nsrc) ==> mr.woff[mr.nsrc] == w.wpos)
+//@   ensures [C16.multi.writeto.bytes] forall j, x :: (old(mr.cur) <= j && j < mr.cur && mr.woff[j] <= x && x < mr.woff[j] + mr.srcs[j].total - old(mr.srcs[j].pos)) ==> w.wlog[x] == mr.srcs[j].data[old(mr.srcs[j].pos) + x - mr.woff[j]]
+//@   ensures [C16.multi.writeto.partial] forall c :: (err != nil && c == mr.cur) ==> (mr.woff[c] <= w.wpos && w.wpos - mr.woff[c] <= mr.srcs[c].pos - old(mr.srcs[c].pos)
+//@        && (forall x :: (mr.woff[c] <= x && x < w.wpos) ==> w.wlog[x] == mr.srcs[c].data[old(mr.srcs[c].pos) + x - mr.woff[c]]))
+//@   ensures [C16.multi.writeto.untouched] forall j :: mr.cur < j && j < mr.nsrc ==> mr.srcs[j].pos == old(mr.srcs[j].pos)
 //@   loop 0 invariant invonly(mr, "s.cur", "s.len", "s.nonnil", "s.distinct", "s.pos")
-//@   loop 0 invariant mr.nsrc == old(mr.nsrc) && mr.srcs == old(mr.srcs) && mr.cur == old(mr.cur) && mr.ext == old(mr.ext) && mr.readers == old(mr.readers)
+//@   loop 0 invariant mr.nsrc == old(mr.nsrc) && mr.srcs == old(mr.srcs) && mr.cur == old(mr.cur) && mr.readers == old(mr.readers)
 //@   loop 0 invariant -1 <= rangeindex && rangeindex < len(mr.readers)
 //@   loop 0 invariant forall j :: rangeindex < j && j < len(mr.readers) ==> mr.readers[j] == mr.srcs[mr.cur + j]
-//@   loop 0 invariant forall j :: 0 <= j && j < mr.cur ==> (implements(mr.srcs[j], "io.Closer") ==> mr.srcs[j].closes + mr.ext[j] == 1)
-//@   loop 0 invariant forall j :: 0 <= j && j < mr.cur ==> (mr.srcs[j].pos == mr.srcs[j].total || mr.ext[j] == 1)
-//@   loop 0 invariant forall j :: mr.cur <= j && j <= mr.cur + rangeindex ==> mr.srcs[j].pos == mr.srcs[j].total
-//@   loop 0 invariant [C16.multi.writeto.closed] forall j :: mr.cur <= j && j <= mr.cur + rangeindex ==> (implements(mr.srcs[j], "io.Closer") ==> mr.srcs[j].closes + mr.ext[j] == 1)
-//@   loop 0 invariant forall j :: mr.cur + rangeindex < j && j < mr.nsrc ==> (mr.srcs[j].closes == 0 && mr.ext[j] == 0)
+//@   loop 0 invariant forall j :: 0 <= j && j < mr.cur ==> (implements(mr.srcs[j], "io.Closer") ==> mr.srcs[j].closes == 1)
+//@   loop 0 invariant forall j :: 0 <= j && j < mr.cur ==> mr.srcs[j].pos == mr.srcs[j].total
+//@   loop 0 invariant [C16.multi.writeto.drained] forall j :: mr.cur <= j && j <= mr.cur + rangeindex ==> mr.srcs[j].pos == mr.srcs[j].total
+//@   loop 0 invariant [C16.multi.writeto.closed] forall j :: mr.cur <= j && j <= mr.cur + rangeindex ==> (implements(mr.srcs[j], "io.Closer") ==> mr.srcs[j].closes == 1)
+//@   loop 0 invariant forall j :: mr.cur + rangeindex < j && j < mr.nsrc ==> (mr.srcs[j].closes == 0 && mr.srcs[j].pos == old(mr.srcs[j].pos))
+//@   loop 0 invariant old(w.wpos) <= w.wpos
+//@   loop 0 invariant [C16.multi.writeto.sum] (w.wpos - old(w.wpos) <= 9223372036854775807) ==> sum == w.wpos - old(w.wpos)
+//@   loop 0 invariant forall k :: 0 <= k && k < old(w.wpos) ==> w.wlog[k] == old(w.wlog[k])
+//@   loop 0 invariant rangeindex == -1 ==> w.wpos == old(w.wpos)
+//@   loop 0 invariant rangeindex >= 0 ==> (mr.woff[mr.cur] == old(w.wpos) && mr.woff[mr.cur + rangeindex + 1] == w.wpos)
+//@   loop 0 invariant [C16.multi.writeto.order] forall j, m :: (mr.cur <= j && j <= mr.cur + rangeindex && m == j + 1) ==> mr.woff[m] == mr.woff[j] + mr.srcs[j].total - old(mr.srcs[j].pos)
+//@   loop 0 invariant forall j :: (mr.cur <= j && j <= mr.cur + rangeindex) ==> (old(w.wpos) <= mr.woff[j] && mr.woff[j] + mr.srcs[j].total - old(mr.srcs[j].pos) <= w.wpos)
+//@   loop 0 invariant [C16.multi.writeto.bytes] forall j, x :: (mr.cur <= j && j <= mr.cur + rangeindex && mr.woff[j] <= x && x < mr.woff[j] + mr.srcs[j].total - old(mr.srcs[j].pos)) ==> w.wlog[x] == mr.srcs[j].data[old(mr.srcs[j].pos) + x - mr.woff[j]]
+//@   at before call io.CopyBuffer ghost mr.woff = update(mr.woff, mr.cur + i, w.wpos)
+//@   at call io.CopyBuffer ghost mr.woff = update(mr.woff, mr.cur + i + 1, w.wpos)
 //@   at store readers#0 ghost mr.cur = mr.cur + i
 //@   at store readers#1 ghost mr.cur = mr.nsrc
 //@   replay template multiwriteto
@@ -144,37 +221,80 @@ package streams
 //@ func (*MultiReaderCloser).WriteTo
 //@   tags C16 C07
 //@   requires mr != nil && inv(mr)
-//@   modifies mr.readers, mr.readers[0:len(mr.readers)], mr.cur, pos, closes, w.wlog, w.wpos
+//@   requires w != nil && 0 <= w.wpos
+//@   modifies mr.readers, mr.readers[0:len(mr.readers)], mr.cur, mr.woff, pos, closes, w.wlog, w.wpos
 //@   ensures mr.nsrc == old(mr.nsrc) && mr.srcs == old(mr.srcs)
 //@   ensures [C16.multi.writeto.inv] inv(mr)
 //@   ensures [C16.multi.writeto.done] err == nil ==> mr.cur == mr.nsrc
+//@   ensures [C16.multi.writeto.resume] err != nil ==> old(mr.cur) <= mr.cur && mr.cur < mr.nsrc
+//@   ensures [C16.multi.writeto.sum] (w.wpos - old(w.wpos) <= 9223372036854775807) ==> sum == w.wpos - old(w.wpos)
+//@   ensures [C16.multi.writeto.prefix] forall k :: 0 <= k && k < old(w.wpos) ==> w.wlog[k] == old(w.wlog[k])
+//@   ensures [C16.multi.writeto.order] (old(mr.cur) == mr.nsrc ==> w.wpos == old(w.wpos)) && (old(mr.cur) < mr.nsrc ==> mr.woff[old(mr.cur)] == old(w.wpos))
+//@        && (forall j, m :: (old(mr.cur) <= j && j < mr.cur && m == j + 1) ==> mr.woff[m] == mr.woff[j] + mr.srcs[j].total - old(mr.srcs[j].pos))
+//@        && ((err == nil && old(mr.cur) < mr.nsrc) ==> mr.woff[mr.nsrc] == w.wpos)
+//@   ensures [C16.multi.writeto.bytes] forall j, x :: (old(mr.cur) <= j && j < mr.cur && mr.woff[j] <= x && x < mr.woff[j] + mr.srcs[j].total - old(mr.srcs[j].pos)) ==> w.wlog[x] == mr.srcs[j].data[old(mr.srcs[j].pos) + x - mr.woff[j]]
+//@   ensures [C16.multi.writeto.partial] forall c :: (err != nil && c == mr.cur) ==> (mr.woff[c] <= w.wpos && w.wpos - mr.woff[c] <= mr.srcs[c].pos - old(mr.srcs[c].pos)
+//@        && (forall x :: (mr.woff[c] <= x && x < w.wpos) ==> w.wlog[x] == mr.srcs[c].data[old(mr.srcs[c].pos) + x - mr.woff[c]]))
+//@   ensures [C16.multi.writeto.untouched] forall j :: mr.cur < j && j < mr.nsrc ==> mr.srcs[j].pos == old(mr.srcs[j].pos)
 
 // ---- TeeReadCloser ----
+// Sentence S2 of C16: the consumer gets the source's bytes and exactly those bytes are written to the writer,
+// for every outcome of the source's Read (data with nil, data with EOF, data with another error, zero-length reads).
+// we = the error answered by the writer in this call (nil when it was not called). A failing writer is outside the
+// property statement: the clauses that speak about the end of the stream are stated for calls whose writer did not fail.
 
 //@ type TeeReadCloser
 //@   invariant self.r != nil ==> (0 <= self.r.pos && self.r.pos <= self.r.total)
+//@   invariant [C16.tee.eofstate] (self.eof && self.r != nil) ==> self.r.pos == self.r.total
+
+//@ func NewTeeReadCloser
+//@   tags C16
+//@   modifies nothing
+//@   ensures [C16.tee.ctor] fresh(result) && result.r == r && result.w == w && !result.eof
+//@   ensures [C16.tee.ctor.inv] (r != nil ==> (0 <= r.pos && r.pos <= r.total)) ==> inv(result)
 
 //@ func (*TeeReadCloser).Read
 //@   tags C16 C07
+//@   ghost se iface
+//@   ghost we iface
+//@   ghost asked bool
 //@   requires t != nil && inv(t)
 //@   modifies p[0:len(p)], t.eof, t.r.pos, t.w.wlog, t.w.wpos
 //@   ensures inv(t)
+//@   ensures t.r == old(t.r) && t.w == old(t.w)
 //@   ensures [C16.tee.closed] (old(t.r) == nil || old(t.w) == nil) ==> (n == 0 && err == io.ErrClosedPipe)
-//@   ensures [C16.tee.bytes] (t.r != nil && t.w != nil && err == nil) ==> (0 <= n && n <= len(p) && t.r.pos == old(t.r.pos) + n
+//@   ensures [C16.tee.bytes] (old(t.r) != nil && old(t.w) != nil) ==> (0 <= n && n <= len(p)
 //@        && (forall k :: 0 <= k && k < n ==> p[k] == t.r.data[old(t.r.pos) + k]))
-//@   ensures [C16.tee.written] (t.r != nil && t.w != nil && err == nil) ==> (t.w.wpos == old(t.w.wpos) + n
+//@   ensures [C16.tee.written] (old(t.r) != nil && old(t.w) != nil) ==> (t.w.wpos == old(t.w.wpos) + n
+//@        && (forall k :: 0 <= k && k < old(t.w.wpos) ==> t.w.wlog[k] == old(t.w.wlog[k]))
 //@        && (forall k :: 0 <= k && k < n ==> t.w.wlog[old(t.w.wpos) + k] == t.r.data[old(t.r.pos) + k]))
-//@   ensures [C16.tee.eof] (t.r != nil && t.w != nil && err == io.EOF && !old(t.eof)) ==> t.r.pos == t.r.total
-//@   ensures [C16.tee.eof.written] (t.r != nil && t.w != nil && err == io.EOF) ==> (t.w.wpos == old(t.w.wpos) + n
-//@        && (forall k :: 0 <= k && k < n ==> t.w.wlog[old(t.w.wpos) + k] == t.r.data[old(t.r.pos) + k]))
+//@   ensures [C16.tee.nolost] (old(t.r) != nil && old(t.w) != nil && (err == nil || we == nil)) ==> t.r.pos == old(t.r.pos) + n
+//@   ensures [C16.tee.eof] (old(t.r) != nil && old(t.w) != nil && err == io.EOF && we == nil) ==> t.r.pos == t.r.total
+//@   ensures [C16.tee.verdict] (old(t.r) != nil && old(t.w) != nil && !old(t.eof) && we == nil) ==> (asked && err == se)
+//@   ensures [C16.tee.sticky] (old(t.r) != nil && old(t.w) != nil && old(t.eof)) ==> (n == 0 && err == io.EOF)
+//@   at before call Read ghost we = nil
+//@   at call Read ghost se = res1
+//@   at call Read ghost asked = true
+//@   at before call Read assert [C16.tee.ask] len(arg1) == len(old(p))
+//@   at call Write ghost we = res1
+//@   at store eof#0 assert [C16.tee.eofatend] t.r.pos == t.r.total
 
 //@ func (*TeeReadCloser).Close
 //@   tags C16 C07
 //@   requires t != nil
-//@   modifies t.r, t.w, closes
-//@   ensures t.r == nil && t.w == nil
+//@   modifies t.r, t.w, old(t.r).closes, old(t.w).closes
+//@   ensures [C16.tee.close.detach] t.r == nil && t.w == nil
 //@   ensures [C16.tee.close.r] (implements(old(t.r), "io.Closer") && old(t.w) != old(t.r)) ==> old(t.r).closes == old(old(t.r).closes) + 1
 //@   ensures [C16.tee.close.w] (implements(old(t.w), "io.Closer") && old(t.w) != old(t.r)) ==> old(t.w).closes == old(old(t.w).closes) + 1
+//@   ensures [C16.tee.close.nor] !implements(old(t.r), "io.Closer") ==> old(t.r).closes == old(old(t.r).closes)
+//@   ensures [C16.tee.close.now] !implements(old(t.w), "io.Closer") ==> old(t.w).closes == old(old(t.w).closes)
+
+//@ func (*TeeReadCloser).Stop
+//@   tags C16 C07
+//@   requires t != nil
+//@   modifies t.w, old(t.w).closes
+//@   ensures [C16.tee.stop] t.w == nil && t.r == old(t.r) && t.eof == old(t.eof)
+//@   ensures [C16.tee.stop.w] implements(old(t.w), "io.Closer") ==> old(t.w).closes == old(old(t.w).closes) + 1
 
 // ---- UppercaseTransformer (C07 safety sweep: any rune, any byte stream) ----
 
